@@ -274,6 +274,104 @@ impl Model for UfModel {
 pub enum VmAct {
     Insert(usize, u8),
     Remove(usize),
+    /// first step only: the map is built in bulk by `route` (0 = From<Vec<(K, V)>>, 1 = From<&[(K, V)]>, 2 =
+    /// with_capacity(n)) from the `n`-th pair list of `build_lists` (repeated keys are overwrites)
+    Build(u8, u16),
+    /// `*get_mut(k) = 1` when the key is present
+    SetViaGetMut(usize),
+    /// every value v becomes 3 - v through `iter_mut`
+    ToggleAll,
+}
+
+/// All lists of at most `max_len` (key, value) pairs over keys 0..universe and values {1, 2}.
+pub fn build_lists(universe: usize, max_len: usize) -> Vec<Vec<(usize, u8)>> {
+    let mut out: Vec<Vec<(usize, u8)>> = vec![vec![]];
+    let mut frontier: Vec<Vec<(usize, u8)>> = vec![vec![]];
+    for _ in 0..max_len {
+        let mut next = Vec::new();
+        for l in &frontier {
+            for k in 0..universe {
+                for v in [1u8, 2] {
+                    let mut n = l.clone();
+                    n.push((k, v));
+                    next.push(n);
+                }
+            }
+        }
+        out.extend(next.iter().cloned());
+        frontier = next;
+    }
+    out
+}
+
+const BUILD_UNIVERSE: usize = 3;
+const BUILD_MAX_LEN: usize = 3;
+
+/// One step on the real map and on the reference map; Err = the step itself disagreed.
+fn apply_vm(real: &mut VMap, model: &mut BTreeMap<usize, u8>, a: VmAct) -> Result<(), String> {
+    match a {
+        VmAct::Insert(k, v) => {
+            model.insert(k, v);
+            real.insert(&k, v);
+        }
+        VmAct::Remove(k) => {
+            let expected = model.remove(&k);
+            let removed = real.remove(&k);
+            if removed != expected {
+                return Err(format!("remove returned {removed:?}, model says {expected:?}"));
+            }
+        }
+        VmAct::Build(route, n) => {
+            let lists = build_lists(BUILD_UNIVERSE, BUILD_MAX_LEN);
+            let pairs = lists[n as usize % lists.len()].clone();
+            model.clear();
+            for (k, v) in &pairs {
+                model.insert(*k, *v);
+            }
+            *real = match route {
+                0 => VMap::from(pairs),
+                1 => VMap::from(&pairs[..]),
+                _ => {
+                    let mut m = VMap::with_capacity(n as usize % 6);
+                    for (k, v) in &pairs {
+                        m.insert(k, *v);
+                    }
+                    m
+                }
+            };
+        }
+        VmAct::SetViaGetMut(k) => {
+            let present = model.contains_key(&k);
+            match real.get_mut(&k) {
+                Some(x) => {
+                    if !present {
+                        return Err(format!("get_mut({k}) is Some, model has no such key"));
+                    }
+                    *x = 1;
+                    model.insert(k, 1);
+                }
+                None => {
+                    if present {
+                        return Err(format!("get_mut({k}) is None, model has the key"));
+                    }
+                }
+            }
+        }
+        VmAct::ToggleAll => {
+            let mut seen = Vec::new();
+            for (k, v) in real.iter_mut() {
+                *v = 3u8.wrapping_sub(*v);
+                seen.push(k);
+            }
+            if seen != model.keys().copied().collect::<Vec<_>>() {
+                return Err(format!("iter_mut visited {seen:?}, model has keys {:?}", model.keys().collect::<Vec<_>>()));
+            }
+            for v in model.values_mut() {
+                *v = 3u8.wrapping_sub(*v);
+            }
+        }
+    }
+    Ok(())
 }
 
 type VMap = VectorMap<usize, u8>;
@@ -326,6 +424,11 @@ pub fn compare_vm(real: &VMap, model: &BTreeMap<usize, u8>, universe: usize) -> 
         if vs != model.values().copied().collect::<Vec<_>>() {
             return Err(("iter", format!("values() = {vs:?}")));
         }
+        let iv: Vec<u8> = real.clone().into_values().collect();
+        let ii: Vec<usize> = real.clone().into_indices().collect();
+        if iv != vs || ii != ix {
+            return Err(("iter", format!("into_values() = {iv:?}, into_indices() = {ii:?}")));
+        }
         Ok(())
     });
     match r {
@@ -337,6 +440,8 @@ pub fn compare_vm(real: &VMap, model: &BTreeMap<usize, u8>, universe: usize) -> 
 struct VmModel {
     universe: usize,
     max_depth: usize,
+    /// longest pair list of the bulk constructors
+    build_len: usize,
 }
 
 impl Model for VmModel {
@@ -356,34 +461,33 @@ impl Model for VmModel {
                 out.push(VmAct::Insert(k, 1));
                 out.push(VmAct::Insert(k, 2));
                 out.push(VmAct::Remove(k));
+                out.push(VmAct::SetViaGetMut(k));
+            }
+            out.push(VmAct::ToggleAll);
+            if s.depth == 0 {
+                let n = build_lists(BUILD_UNIVERSE, self.build_len).len();
+                for route in 0..3u8 {
+                    for i in 0..n {
+                        out.push(VmAct::Build(route, i as u16));
+                    }
+                }
             }
         }
     }
     fn next_state(&self, s: &VmState, a: VmAct) -> Option<VmState> {
         let mut n = s.clone();
         n.depth += 1;
-        let expected_removed = match a {
-            VmAct::Insert(k, v) => {
-                n.model.insert(k, v);
-                None
-            }
-            VmAct::Remove(k) => Some(n.model.remove(&k)),
-        };
         let mut real = s.real.clone();
+        let mut model = s.model.clone();
         match guarded(move || {
-            let removed = match a {
-                VmAct::Insert(k, v) => {
-                    real.insert(&k, v);
-                    None
-                }
-                VmAct::Remove(k) => Some(real.remove(&k)),
-            };
-            (real, removed)
+            let r = apply_vm(&mut real, &mut model, a);
+            (real, model, r)
         }) {
-            Ok((r, removed)) => {
+            Ok((r, m, step)) => {
                 n.real = r;
-                if removed != expected_removed {
-                    n.panicked = Some(format!("remove returned {removed:?}, model says {expected_removed:?}"));
+                n.model = m;
+                if let Err(e) = step {
+                    n.panicked = Some(e);
                 }
             }
             Err(p) => n.panicked = Some(p),
@@ -447,6 +551,12 @@ fn parse_vm_act(s: &str) -> VmAct {
         .collect();
     if s.starts_with("Insert") {
         VmAct::Insert(nums[0], nums[1] as u8)
+    } else if s.starts_with("Build") {
+        VmAct::Build(nums[0] as u8, nums[1] as u16)
+    } else if s.starts_with("SetViaGetMut") {
+        VmAct::SetViaGetMut(nums[0])
+    } else if s.starts_with("ToggleAll") {
+        VmAct::ToggleAll
     } else {
         VmAct::Remove(nums[0])
     }
@@ -478,28 +588,17 @@ pub fn replay_vm(hist: &[VmAct], universe: usize) -> Option<(usize, &'static str
     let mut model = BTreeMap::new();
     for (i, a) in hist.iter().enumerate() {
         let a = *a;
-        let expected = match a {
-            VmAct::Insert(k, v) => {
-                model.insert(k, v);
-                None
-            }
-            VmAct::Remove(k) => Some(model.remove(&k)),
-        };
         let mut r2 = real.clone();
+        let mut m2 = model.clone();
         match guarded(move || {
-            let removed = match a {
-                VmAct::Insert(k, v) => {
-                    r2.insert(&k, v);
-                    None
-                }
-                VmAct::Remove(k) => Some(r2.remove(&k)),
-            };
-            (r2, removed)
+            let step = apply_vm(&mut r2, &mut m2, a);
+            (r2, m2, step)
         }) {
-            Ok((r, removed)) => {
+            Ok((r, m, step)) => {
                 real = r;
-                if removed != expected {
-                    return Some((i, "get", format!("remove returned {removed:?}, model says {expected:?}")));
+                model = m;
+                if let Err(e) = step {
+                    return Some((i, "get", e));
                 }
             }
             Err(p) => return Some((i, "panic", p)),
@@ -568,6 +667,7 @@ impl Check for C19 {
                 let m = VmModel {
                     universe: 4,
                     max_depth: d,
+                    build_len: if tier.thorough() { 3 } else { 2 },
                 };
                 let checker = m.checker().threads(threads).spawn_bfs().join();
                 if d == depth || ["get", "len", "iter", "panic"].iter().any(|f| checker.discovery(f).is_some()) {
@@ -605,7 +705,7 @@ impl Check for C19 {
             &format!(
                 "stateright BFS over all histories of depth <= {} of the real DisjointSet<usize, multiset> over universe {{0..3}} with 41 \
                  actions (insert, 16 unions, add-data a/b, set-data, find, get-data, sets) and all histories of depth <= {} of the real \
-                 VectorMap<usize,u8> with 12 actions; state = (Debug of the real object incl. parent pointers, reference model, depth). \
+                 VectorMap<usize,u8> with 17 actions (insert x 2 values, remove, write through get_mut, toggle all values through iter_mut) that may start with a bulk construction (From<Vec>, From<&[..]>, with_capacity + inserts; every pair list of length <= 2 (3 thorough) over 3 keys x 2 values, repeated keys included); state = (Debug of the real object incl. parent pointers, reference model, depth). \
                  Every transition executes the real method and the reference model in lock-step and every state is compared through \
                  all observers (twice, so observers are checked to be pure): that is the conformance check, so every explored \
                  transition is a validated trace step. A state that disagrees is not expanded.",
